@@ -79,6 +79,21 @@ Theorem C02_pivot_coefficient_killed : forall p, prime p -> p < 65536 -> forall 
 Proof. exact upd_kill. Qed.
 Print Assumptions C02_pivot_coefficient_killed.
 
+(* the part that does not depend on the arithmetic holds for every coefficient structure, Multi_field included (there a
+   simplex may close several intervals, one per group of characteristics): births precede deaths, one dimension apart *)
+Theorem C02_birth_before_death_any_coefficients : forall FO cells flag m sw,
+  (forall w, f_pte FO 0 0 w = 0) -> (forall x, f_tm FO x 0 = 0) -> valid cells ->
+  forall b d ch, In (b, Some d, ch) (pcoh_gen sw FO cells flag m) ->
+  (b < d)%nat /\ (d < length cells)%nat /\ dim_of cells d = S (dim_of cells b).
+Proof. exact pcoh_gen_order_any_field. Qed.
+Print Assumptions C02_birth_before_death_any_coefficients.
+
+Theorem C02_birth_before_death_multifield : forall primes cells flag m sw, valid cells ->
+  forall b d ch, In (b, Some d, ch) (pcoh_gen sw (mf_ops primes) cells flag m) ->
+  (b < d)%nat /\ (d < length cells)%nat /\ dim_of cells d = S (dim_of cells b).
+Proof. exact pcoh_multifield_order. Qed.
+Print Assumptions C02_birth_before_death_multifield.
+
 (* ------------------------------------------------------------------ (c) the read-outs are the stated functions of the pair list *)
 (* they depend on the multiset of pairs only (the engine lists the infinite H0 intervals in unordered_map order) *)
 Theorem C02_betti_numbers_of_multiset : forall cells dim_max ps ps', Permutation ps ps' ->
